@@ -1,11 +1,11 @@
 import KafVerif.Model.SqlProxy
 import KafVerif.Prelude.Driver
 /-! Line-protocol driver for the SQL proxy model (C37).
-`conn <ttl> <max> <allow hex,…|-> <deny hex,…|->`,
+`conn <ttl> <max> <allow hex,…|-> <deny hex,…|->` (`~` = an empty list element, `-` = the empty list),
 `q <hex>` -> `fwd <hex> view=<topic hex,…|-> listed=<0|1> kind=<k>` | `deny`, where view/listed are
 the UPSTREAM model's view (`upstreamView`) of the forwarded text and `k` says which branch of the
 upstream answers (cat, set, showtopics, showparts, describe, select, explain, err);
-`oq <hex>` runs the pre-fix handler. -/
+`oq <hex>` runs the pre-fix handler; `acl <allow> <deny> <topic hex>` -> `acl ma= md= allows= show=` (acl.go alone). -/
 open KafVerif KafVerif.SqlParser KafVerif.SqlProxy
 
 structure DS where
@@ -14,7 +14,7 @@ structure DS where
   cacheOld : Cache := ⟨false, 0, []⟩
 
 def parseList (s : String) : Option (List Bytes) :=
-  if s = "-" then some [] else (s.splitOn ",").mapM fromHex
+  if s = "-" then some [] else (s.splitOn ",").mapM fun h => if h = "~" then some [] else fromHex h
 
 /-- `goEnv` with the parser model evaluated once for the text at hand (same function, memoised) -/
 def envFor (q : Bytes) : Env × GoResult Q :=
@@ -54,6 +54,13 @@ def stepLine (d : DS) (ws : List String) : DS × String :=
       let (c, r) := handle e d.acl d.cache q false
       ({ d with cache := c }, match r with | some t => showFwd e pr t | none => "deny")
     | none => (d, "bad-op")
+  | ["acl", al, dn, hx] =>
+    match parseList al, parseList dn, fromHex hx with
+    | some a, some dl, some t =>
+      let b (v : Bool) : String := if v then "1" else "0"
+      (d, "acl ma=" ++ b (matchPatterns a t) ++ " md=" ++ b (matchPatterns dl t) ++ " allows=" ++ b (allows ⟨a, dl⟩ t)
+        ++ " show=" ++ b (allowShowTopics ⟨a, dl⟩))
+    | _, _, _ => (d, "bad-op")
   | ["oq", hx] =>
     match fromHex hx with
     | some q =>
